@@ -298,6 +298,9 @@ func scenOneShot(seed uint64, e *svcEnv, idx int) {
 	if s.badFrame != "" {
 		e.st.Fail("service-wrote-malformed-stream", desc, s.badFrame, "well-formed packets")
 	}
+	if ct := s.crashText(); ct != "" {
+		e.st.Fail("service-process-crashed", desc, ct, "the service never panics")
+	}
 	s.mu.Lock()
 	nsent := 0
 	for _, rs := range results {
